@@ -19,9 +19,10 @@ _RealOptimize = z3.Optimize
 
 
 class Env:
-    def __init__(self, choices=None, candidates=None, unknown_at=(), costs=None, default_cost=0.0):
+    def __init__(self, choices=None, candidates=None, unknown_at=(), costs=None, default_cost=0.0, lazy=False):
         self.choices = list(choices or [])
         self.candidates = candidates  # list of (label, [z3 pins]) or None (no steering)
+        self.lazy = lazy  # only determinism is wanted: take the first consistent candidate in canonical order
         self.unknown_at = set(unknown_at)
         self.costs = dict(costs or {})
         self.default_cost = default_cost
@@ -88,9 +89,13 @@ class _Mixin:
             return z3.unknown
         r = super().check(*a)
         env.log.append(("check", idx, str(r)))
-        if r == z3.sat and env.candidates is not None:
+        if r == z3.sat and env.candidates is not None and isinstance(self, _RealOptimize):
+            pass  # an optimising solver returns its optimum: never steered
+        elif r == z3.sat and env.candidates is not None:
             enabled = []
             for (label, pins) in env.candidates:
+                if env.lazy and enabled:
+                    break
                 super().push()
                 super().add(*pins)
                 rr = super().check()
